@@ -203,6 +203,10 @@ struct AnalyserInternalEquation
     static bool hasNonConstantVariables(const AnalyserInternalVariablePtrs &variables);
     bool hasNonConstantVariables();
 
+    bool variableIn(const AnalyserModelPtr &model,
+                    const AnalyserInternalVariablePtr &variable,
+                    const AnalyserEquationAstPtr &ast,
+                    bool rate);
     bool variableOnLhsRhs(const AnalyserModelPtr &model,
                           const AnalyserInternalVariablePtr &variable,
                           const AnalyserEquationAstPtr &astChild,
@@ -321,6 +325,23 @@ bool AnalyserInternalEquation::variableOnLhsRhs(const AnalyserModelPtr &model,
     }
 }
 
+bool AnalyserInternalEquation::variableIn(const AnalyserModelPtr &model,
+                                          const AnalyserInternalVariablePtr &variable,
+                                          const AnalyserEquationAstPtr &ast,
+                                          bool rate)
+{
+    // Determine whether the given variable (or its rate) is used somewhere in
+    // the given AST.
+
+    if (ast == nullptr) {
+        return false;
+    }
+
+    return variableOnLhsRhs(model, variable, ast, rate)
+           || variableIn(model, variable, ast->leftChild(), rate)
+           || variableIn(model, variable, ast->rightChild(), rate);
+}
+
 bool AnalyserInternalEquation::variableOnRhs(const AnalyserModelPtr &model,
                                              const AnalyserInternalVariablePtr &variable, bool rate)
 {
@@ -330,8 +351,14 @@ bool AnalyserInternalEquation::variableOnRhs(const AnalyserModelPtr &model,
 bool AnalyserInternalEquation::variableOnLhsOrRhs(const AnalyserModelPtr &model,
                                                   const AnalyserInternalVariablePtr &variable, bool rate)
 {
-    return variableOnLhsRhs(model, variable, mAst->leftChild(), rate)
-           || variableOnRhs(model, variable, rate);
+    // Note: a variable (or its rate) which is on its own on one side of the
+    //       equation can only be computed directly if it is not also used on
+    //       the other side of the equation (e.g., x = 2*x-3).
+
+    return (variableOnLhsRhs(model, variable, mAst->leftChild(), rate)
+            && !variableIn(model, variable, mAst->rightChild(), rate))
+           || (variableOnRhs(model, variable, rate)
+               && !variableIn(model, variable, mAst->leftChild(), rate));
 }
 
 bool AnalyserInternalEquation::check(const AnalyserModelPtr &model,
